@@ -1185,6 +1185,7 @@ class FiniteStateMachine:
                                                SupvisorsStates.DISTRIBUTION,
                                                SupvisorsStates.SHUTTING_DOWN],
                     SupvisorsStates.DISTRIBUTION: [SupvisorsStates.OFF,
+                                                   SupvisorsStates.SYNCHRONIZATION,
                                                    SupvisorsStates.ELECTION,
                                                    SupvisorsStates.OPERATION,
                                                    SupvisorsStates.RESTARTING,
@@ -1197,6 +1198,7 @@ class FiniteStateMachine:
                                                 SupvisorsStates.SHUTTING_DOWN],
                     SupvisorsStates.CONCILIATION: [SupvisorsStates.OFF,
                                                    SupvisorsStates.SYNCHRONIZATION,
+                                                   SupvisorsStates.ELECTION,
                                                    SupvisorsStates.OPERATION,
                                                    SupvisorsStates.RESTARTING,
                                                    SupvisorsStates.SHUTTING_DOWN],
